@@ -850,9 +850,14 @@ def env_init_post(self, model, id, old):
             and is_fresh(self.agents, old) and is_fresh(self.components, old))
 
 
+def env_init_tag(self, model, id, old):
+    """C20: environments are agents too - an environment takes the default tag of its own class."""
+    return self.tag == typeof(self).tag
+
+
 contract('Core.Environment.__init__',
          params={'self': 'ref:Environment', 'model': 'ref:Model', 'id': 'str'},
-         ensures={'C04': [env_init_post, Env_rep], 'C03': [env_init_post], 'C20': [env_init_post]},
+         ensures={'C04': [env_init_post, Env_rep], 'C03': [env_init_post], 'C20': [env_init_post, env_init_tag]},
          modifies=['self.id', 'self.model', 'field:self.components', 'self.tag', 'field:self.agents',
                    'new:dict[cls,ref:Component]', 'new:dict[str,ref:Agent]'],
          props=['C04'])
